@@ -1479,11 +1479,12 @@ def sensors_battery():
                     return ret.strip()
         return None
 
-    bats = [
-        x
-        for x in os.listdir(POWER_SUPPLY_PATH)
-        if x.startswith('BAT') or 'battery' in x.lower()
-    ]
+    try:
+        names = os.listdir(POWER_SUPPLY_PATH)
+    except FileNotFoundError:
+        # kernel built without the power_supply class
+        return None
+    bats = [x for x in names if x.startswith('BAT') or 'battery' in x.lower()]
     if not bats:
         return None
     # Get the first available battery. Usually this is "BAT0", except
